@@ -1,7 +1,7 @@
 #!/usr/bin/env python3
 import subprocess, sys, os, json, re, time
-WT=os.environ.get('C04_WT','/var/tmp/wt-c04t')
-LOGDIR=os.environ.get('C04_MUTLOG','/var/tmp/c04r3/mut')
+WT=os.environ.get('C04_WT','/var/tmp/wt-c04u')
+LOGDIR=os.environ.get('C04_MUTLOG','/var/tmp/c04r4/mut')
 os.makedirs(LOGDIR, exist_ok=True)
 ENV=dict(os.environ, GOFLAGS='-mod=mod', GOPROXY='off', GOSUMDB='off', GOTOOLCHAIN='local')
 def sh(cmd, cwd=None, timeout=3000, env=ENV):
@@ -351,7 +351,197 @@ type instance struct {'''),(I,'''	waiter := coreutil.NewWaiter(i.schedule)
 				i.aggregator.Report(sample)
 ''')],
 })
-PK={W:'./core/coreutil/...',I:'./core/engine/...',C:'./cli/...',S:'./core/aggregator/...',E:'./core/engine/...',P:'./core/aggregator/...'}
+
+# ---- round 4 ----
+M.update({
+ # two construction paths for the same thing: the first instance is built from `deps`, the later ones from a re-assembled copy that forgets the option
+ 'r01-later-instances-lose-the-option': [(E,'''			runRes <- instanceRunResult{id, runNewInstance(runCtx, p.log, p.ID, id, deps)}''','''			runRes <- instanceRunResult{id, runNewInstance(runCtx, p.log, p.ID, id, instanceDeps{
+				newSchedule: deps.newSchedule,
+				newGun:      deps.newGun,
+				instanceSharedDeps: instanceSharedDeps{
+					provider:   p.Provider,
+					metrics:    p.metrics,
+					gunDeps:    p.sharedGunDeps,
+					aggregator: p.Aggregator,
+				},
+			})}''')],
+ # order of independent-looking operations: the default block runs before the config has been read
+ 'r02-default-applied-before-the-config-is-read': [(C,'''	// a missing or malformed pools section is reported by DecodeAndValidate below
+	if pools, ok := v.Get("pools").([]any); ok {
+		for i, pool := range pools {
+			poolMap, ok := pool.(map[string]any)
+			if !ok {
+				continue
+			}
+			if _, ok := poolMap["discard_overflow"]; !ok {
+				poolMap["discard_overflow"] = true
+			}
+			pools[i] = poolMap
+		}
+		v.Set("pools", pools)
+	}
+''',''''''),(C,'''	log.Info("Pandora version", zap.String("version", Version))
+''','''	log.Info("Pandora version", zap.String("version", Version))
+	// a missing or malformed pools section is reported by DecodeAndValidate below
+	if pools, ok := v.Get("pools").([]any); ok {
+		for i, pool := range pools {
+			poolMap, ok := pool.(map[string]any)
+			if !ok {
+				continue
+			}
+			if _, ok := poolMap["discard_overflow"]; !ok {
+				poolMap["discard_overflow"] = true
+			}
+			pools[i] = poolMap
+		}
+		v.Set("pools", pools)
+	}
+''')],
+ # representation: the sleep goes through an int32 count of milliseconds (wraps for a token 24.9 days ahead: fires at once)
+ 'r04-sleep-through-int32-milliseconds': [(W,'''	// Lazy init. We don't need timer for unlimited and once schedule.
+''','''	sleepMs := int32(waitFor / time.Millisecond)
+	waitFor = time.Duration(sleepMs)*time.Millisecond + waitFor%time.Millisecond
+	// Lazy init. We don't need timer for unlimited and once schedule.
+''')],
+ # struct tag of a dependency renamed to the dash style of its neighbour `rps-per-instance`; cli still puts `discard_overflow`
+ 'r05-config-tag-renamed': [(E,'`config:"discard_overflow"`','`config:"discard-overflow"`')],
+ # type-level: a field of the same name directly in `instance` shadows the embedded one and is never set
+ 'r07-shadowed-field': [(I,'''	schedule core.Schedule
+	instanceSharedDeps
+}''','''	schedule core.Schedule
+	// discardOverflow: report late tokens as discarded instead of shooting them
+	discardOverflow bool
+	instanceSharedDeps
+}''')],
+ # cost: a pause after every discarded token ("give the target air"): the run length grows with the number of discarded tokens
+ 'r08-pause-after-every-discard': [(I,'''				i.aggregator.Report(netsample.DiscardedShootSample())
+''','''				i.aggregator.Report(netsample.DiscardedShootSample())
+				time.Sleep(20 * time.Millisecond)
+'''),(I,'''	"io"
+''','''	"io"
+	"time"
+''')],
+ # the default moves from the cli block into DefaultConfig(): the decoder re-uses element 0 of a preset slice only
+ 'r09-default-moved-into-DefaultConfig': [(C,'''			if _, ok := poolMap["discard_overflow"]; !ok {
+				poolMap["discard_overflow"] = true
+			}
+''',''''''),(C,'''	return &CliConfig{
+		Log: logConfig{''','''	return &CliConfig{
+		Engine: engine.Config{Pools: []engine.InstancePoolConfig{{DiscardOverflow: true}}},
+		Log: logConfig{''')],
+ # a fault at a particular point: cancelled exactly while sleeping for a FAR token, the waiter reports the token as waited for
+ 'r10-cancel-on-a-long-sleep-returns-true': [(W,'''	case <-ctx.Done():
+		return false
+	}
+}''','''	case <-ctx.Done():
+		// a sleep of more than a minute is not worth resuming: hand the event out
+		return waitFor > time.Minute
+	}
+}''')],
+ # the documented key is no longer accepted: both cli and the struct tag use the dash style
+ 'r11-key-renamed-everywhere-but-the-docs': [(E,'`config:"discard_overflow"`','`config:"discard-overflow"`'),(C,'''			if _, ok := poolMap["discard_overflow"]; !ok {
+				poolMap["discard_overflow"] = true''','''			if _, ok := poolMap["discard-overflow"]; !ok {
+				poolMap["discard-overflow"] = true''')],
+ 'h10-harmless-shared-deps-local': [(E,'''	deps := instanceDeps{
+		newSchedule: newInstanceSchedule,
+		newGun:      p.NewGun,
+		instanceSharedDeps: instanceSharedDeps{
+			provider:        p.Provider,
+			metrics:         p.metrics,
+			gunDeps:         p.sharedGunDeps,
+			aggregator:      p.Aggregator,
+			discardOverflow: p.DiscardOverflow,
+		},
+	}''','''	shared := instanceSharedDeps{
+		aggregator:      p.Aggregator,
+		discardOverflow: p.DiscardOverflow,
+		gunDeps:         p.sharedGunDeps,
+		metrics:         p.metrics,
+		provider:        p.Provider,
+	}
+	deps := instanceDeps{
+		newGun:             p.NewGun,
+		newSchedule:        newInstanceSchedule,
+		instanceSharedDeps: shared,
+	}''')],
+ 'h11-harmless-cli-key-constant-and-renamed-local': [(C,'''			poolMap, ok := pool.(map[string]any)
+			if !ok {
+				continue
+			}
+			if _, ok := poolMap["discard_overflow"]; !ok {
+				poolMap["discard_overflow"] = true
+			}
+			pools[i] = poolMap''','''			section, isMap := pool.(map[string]any)
+			if !isMap {
+				continue
+			}
+			const key = "discard_overflow"
+			if _, given := section[key]; !given {
+				section[key] = true
+			}
+			pools[i] = section''')],
+ 'h12-harmless-sample-literal-field-order': [(S,'''	sample := &Sample{
+		timeStamp: time.Now(),
+		tags:      DiscardedShootTag,
+	}
+	sample.SetUserNet(DiscardedShootCodeError)
+''','''	sample := &Sample{
+		tags:      DiscardedShootTag,
+		timeStamp: time.Now(),
+	}
+	sample.SetUserNet(DiscardedShootCodeError)
+''')],
+})
+
+PL='core/plugin/constructor.go'
+M.update({
+ # two interacting options at the cli level: no default for a pool that sets rps-per-instance
+ 'r12-no-default-with-rps-per-instance': [(C,'''			if _, ok := poolMap["discard_overflow"]; !ok {''','''			if _, ok := poolMap["discard_overflow"]; !ok && poolMap["rps-per-instance"] != true {''')],
+ # dependency core/plugin: a factory made from a plugin constructor builds its product once and hands the same object out again
+ # (with rps-per-instance every instance then runs on ONE schedule: inst x N tokens shrink to N)
+ 'r13-plugin-factory-memoises-its-product': [(PL,'''	return reflect.MakeFunc(factoryType, func(in []reflect.Value) []reflect.Value {
+		var maybeConf []reflect.Value
+		if getMaybeConf != nil {''','''	var cached []reflect.Value
+	return reflect.MakeFunc(factoryType, func(in []reflect.Value) []reflect.Value {
+		if cached != nil {
+			return cached
+		}
+		var maybeConf []reflect.Value
+		if getMaybeConf != nil {'''),(PL,'''		out := c.newPlugin.Call(maybeConf)
+		return convertFactoryOutParams(c.pluginType, factoryType.NumOut(), out)
+	}).Interface(), nil
+}
+
+// factoryConstructor use''','''		out := c.newPlugin.Call(maybeConf)
+		cached = convertFactoryOutParams(c.pluginType, factoryType.NumOut(), out)
+		return cached
+	}).Interface(), nil
+}
+
+// factoryConstructor use''')],
+})
+
+M.update({
+ 'h13-harmless-later-instances-from-a-complete-copy': [(E,'''			runRes <- instanceRunResult{id, runNewInstance(runCtx, p.log, p.ID, id, deps)}''','''			runRes <- instanceRunResult{id, runNewInstance(runCtx, p.log, p.ID, id, instanceDeps{
+				newSchedule: deps.newSchedule,
+				newGun:      deps.newGun,
+				instanceSharedDeps: instanceSharedDeps{
+					provider:        p.Provider,
+					metrics:         p.metrics,
+					gunDeps:         p.sharedGunDeps,
+					aggregator:      p.Aggregator,
+					discardOverflow: p.DiscardOverflow,
+				},
+			})}''')],
+})
+
+M.update({
+ # the default only for a config named on the command line (not for ./load.yaml found by the default search)
+ 'r15-no-default-for-the-config-found-by-search': [(C,'if pools, ok := v.Get("pools").([]any); ok {','if pools, ok := v.Get("pools").([]any); ok && len(args) > 0 {')],
+ # ... and only for files whose type viper derives from the extension (not for a file without one)
+ 'r16-no-default-for-a-config-without-extension': [(C,'if pools, ok := v.Get("pools").([]any); ok {','if pools, ok := v.Get("pools").([]any); ok && (useStdinConfig || filepath.Ext(v.ConfigFileUsed()) != "") {')],
+})
+PK={PL:'./core/plugin/...',W:'./core/coreutil/...',I:'./core/engine/...',C:'./cli/...',S:'./core/aggregator/...',E:'./core/engine/...',P:'./core/aggregator/...'}
 def main():
     names=sys.argv[2:] or sorted(M)
     tier=sys.argv[1]
